@@ -206,6 +206,28 @@ def run(tier, seed):
                 ck.case((name, "neg", a, b, k), True)
                 if not u <= lim:
                     ck.violation({"fn": name, "clause": "negative_integer_exponent"}, "%s(%r, %d) = %r, exact 1/(%d%+dj) = %.17g%+.17gj (%.3g ulp of |result|)" % (name, complex(a, b), k, got, ir, ii, er, ei, u), {"case": dict(c)})
+            # the same reciprocal after an exact scaling of the base by 2^s: (2^s z)^k = 2^(s k) z^k exactly, so the expected value is
+            # ldexp of the one above.  s is chosen so that z^|k| (the intermediate the code inverts) has a modulus whose SQUARE
+            # overflows or underflows although the result itself is an ordinary normal double: the exact value is representable.
+            for tgt in (-1000, -700, -530, 530, 700, 1000):
+                sgn = 1 if tgt > 0 else -1
+                s = sgn * (abs(tgt) // abs(k))
+                if s == 0:
+                    continue
+                sk = s * k                                                         # exponent of two carried by the result
+                xr, xi = math.ldexp(er, sk), math.ldexp(ei, sk)
+                zs = complex(math.ldexp(float(a), s), math.ldexp(float(b), s))
+                xm = max(abs(xr), abs(xi))
+                if not (1e-290 < xm < 1e290):
+                    continue
+                for name, got, lim in (("cipow", C.cipow(zs, k), 4), ("cpow", C.cpow(zs, complex(k, 0)), 64)):
+                    u = max(abs(got.real - xr), abs(got.imag - xi)) / (xm * ULP)
+                    note(name + "_negative_exponent_scaled", u)
+                    ck.case((name, "neg_scaled", a, b, k, s), True)
+                    if not u <= lim:
+                        ck.violation({"fn": name, "clause": "negative_integer_exponent_scaled"},
+                                     "%s(%r, %d) = %r, exact 2^%d/(%d%+dj) = %.17g%+.17gj (%.3g ulp of |result|): the reciprocal of a power whose squared modulus "
+                                     "leaves the double range is lost although the result is representable" % (name, zs, k, got, sk, ir, ii, xr, xi, u), {"case": dict(c), "s": s})
         elif kind == "unitpow_exact":
             a, b = c["base"]
             k = c["k"]
